@@ -108,6 +108,12 @@ def def_sol(formula, display=True, log=False, params={}):
         lb = np.where(bool_bin, np.maximum(formula.lb, 0), formula.lb)
         ub = np.where(bool_bin, np.minimum(formula.ub, 1), formula.ub)
 
+        # bounds of integer and binary columns rounded inward (HiGHS may
+        # return a suboptimal point when they are fractional)
+        bool_int = (vtype != 'C')
+        lb = np.where(bool_int, np.ceil(lb - 1e-9), lb)
+        ub = np.where(bool_int, np.floor(ub + 1e-9), ub)
+
         integrality = np.zeros(A.shape[1])
         integrality[vtype != 'C'] = 1
 
